@@ -30,6 +30,7 @@ EXPLANATION = (
     "(units, magnitude) only after its offset-unit conversion; G-OWN: no in-place conversion of arguments in "
     "implementations, method wrappers and functional operator forms; unit handling of clip/put/searchsorted/copyto/where. "
     "Does not decide NumPy results, broadcasting or the exponent arithmetic of prod.")
+EXPLANATION += " Also decided (rules added after the second round of seeded changes): package-wide who-may-call of the in-place primitives (_convert_magnitude, ito*: only in-place forms, on their own target, or the ireduce_dimensions wrapper on the fresh result); a local alias of an operand's magnitude is not used after the operand name is rebound to a converted quantity."
 
 
 
